@@ -115,18 +115,18 @@ def gen_cases(ctx):
            "quat": [[0.1, 0.2, 0.30000000000000004, 1 / 3]], "corpus": "extremes"}
     yield {"kind": "bag", "stamps": [1500000000.1234567, 1500000001.0000000], "xyz": [[1.0, 2.0, 3.0]] * 2, "quat": [[1.0, 0.0, 0.0, 0.0]] * 2,
            "frame": "map", "corpus": "epoch"}
-    for _ in range(220 if not th else 1500):
+    for _ in range(800 if not th else 3000):
         n = r.choice([1, 1, 2, 3, 5, 10, 30])
         fmt = r.choice(["tum", "kitti"])
         c = {"kind": "text", "fmt": fmt, "variant": r.choice(["h", "p"]), "rw": r.choice(["h", "p"])}
         c.update(gen_traj(r, n) if fmt == "tum" else {"mats": gen_mats(r, n)})
         yield c
-    big = 2000 if not th else 100000
+    big = 6000 if not th else 100000
     c = {"kind": "text", "fmt": "tum", "variant": "p", "rw": "p", "big": True}
     c.update(gen_traj(r, big))
     yield c
     yield {"kind": "text", "fmt": "kitti", "variant": "h", "rw": "p", "mats": gen_mats(r, big // 4), "big": True}
-    for _ in range(120 if not th else 800):
+    for _ in range(400 if not th else 1500):
         n = r.choice([1, 2, 5, 20])
         info = {}
         for _ in range(r.randint(0, 5)):
@@ -146,12 +146,12 @@ def gen_cases(ctx):
                 trajs["path"] = {"type": "kitti", "mats": gen_mats(r, n)}
         yield {"kind": "result", "variant": r.choice(["h", "p"]), "load_traj": r.random() < 0.6, "info": info, "stats": statsd,
                "arrays": arrays, "trajs": trajs}
-    for _ in range(80 if not th else 500):
+    for _ in range(250 if not th else 1000):
         n = r.choice([1, 2, 5, 40])
         c = {"kind": "df", "type": r.choice(["tum", "kitti"])}
         c.update(gen_traj(r, n))
         yield c
-    for _ in range(40 if not th else 300):
+    for _ in range(120 if not th else 500):
         n = r.choice([1, 2, 5, 30])
         t = gen_traj(r, n)
         t["stamps"] = [s for s in t["stamps"] if s < 2 ** 31] or [0.5]
@@ -162,7 +162,7 @@ def gen_cases(ctx):
     yield {"kind": "bagstamps", "stamps": [abs(hard_double(r)) % 2.0 ** 31 for _ in range(300 if not th else 5000)]
            + [s for _ in range(50) for s in stamps(r, 20)] + [0.0, 0.999999999, 0.9999999999, 1.0 - 2 ** -53, 2 ** 31 - 2 ** -22, 1e-10, 4.9e-324]}
     # rne against CPython's correctly rounded division (validation of the executable rounding)
-    yield {"kind": "rne", "qs": [rand_rational(r) for _ in range(400 if not th else 4000)]}
+    yield {"kind": "rne", "qs": [rand_rational(r) for _ in range(2000 if not th else 20000)]}
 
 
 def rand_rational(r):
@@ -630,7 +630,8 @@ OPEN = ["zip / npy / pandas / rosbags serialisation are libraries: bit-exact dif
         "the sign of zero does not exist in the rational model: -0.0 is covered by the bit-pattern oracle, not by the theorem",
         "lone surrogates in info strings are outside the modelled domain",
         "the ROS2 bag writer cannot be constructed the way evo calls it with the installed rosbags (needs version=): only ROS1 is exercised",
-        "bag_stamp_error is validated per case (and proved for dyadic examples), not proved for all stamps"]
+        "bag_stamp_error (|x' - x| <= 1 ns for every stamp in [0, 2^31)): proved only for whole-second stamps (bag_stamp_error_partial); for all other stamps the model of the sec/nanosec arithmetic is compared bit-for-bit with evo and the 1 ns bound is checked by the oracle on every generated stamp",
+        "df_roundtrip: the DataFrame column <-> slot map is checked differentially (every column against its array slot), not modelled"]
 
 
 def check(ctx):
